@@ -320,7 +320,22 @@ func (g *Gen) RandomTx(avail *[]refchain.OutPoint, lookup func(refchain.OutPoint
 	for i := 0; i < m; i++ {
 		v := rest
 		if i < m-1 {
-			v = rest / uint64(2+r.Intn(3))
+			if r.Intn(6) != 0 {
+				v = rest / uint64(2+r.Intn(3))
+			}
+			// round amounts (d x 10^e: what the compressed UTXO amount codec treats specially), up to whole
+			// multiples of 10 BTC when several coinbases are merged; the remainder goes to the later outputs
+			if v > 0 && r.Intn(3) == 0 {
+				e, p10 := 0, uint64(1)
+				for p10 <= v/10 {
+					p10 *= 10
+					e++
+				}
+				for k := r.Intn(e + 1); k > 0; k-- {
+					p10 /= 10
+				}
+				v -= v % p10
+			}
 		}
 		rest -= v
 		kinds := []Kind{KTrue, KTrue, KP2SHTrue, KP2PKH, KP2PKH, KOpReturn, KOther}
